@@ -13,9 +13,9 @@ PROPS = {
     "C07": P(300000, 6000000, expect_reach=["pool.pop_gives_up_became_empty", "pool.removes_refused_unit_gone", "lin.decided", "pool.empty_pops", "pool.blocking_pop_got_unit"],
              assumptions=["clients respect the producer/consumer counts of the access mode; ABT_pool_remove is issued for a unit whose push has returned: by the sole consumer (it must succeed), or racing with the other consumers' pops (it may be refused, and then the unit was not in the pool at the linearisation point)",
                           "histories <= 48 operations, search capped at 1e6 nodes (undecided histories are counted, never passed or failed)"]),
-    "C08": P(160000, 3000000, expect_reach=["c08.lapping_entries"], assumptions=["ABT_barrier_reinit is called only while nobody waits (API precondition)"]),
-    "C09": P(160000, 3000000, expect_reach=["c09.future_reset_rounds", "c09.future_resets_of_partly_filled", "c09.waits_blocked_before_set", "c09.tests_ready"], assumptions=["ABT_eventual_reset is called only at quiescent points (no waiter, no setter in flight)"]),
-    "C10": P(160000, 3000000, expect_reach=["c10.reads_sharing_the_lock"], assumptions=["lockers unlock what they locked; finite programs (no reader stream that starves a writer for ever)"]),
+    "C08": P(160000, 3000000, expect_reach=["c08.lapping_entries", "c08.xbarrier_rounds_with_external_threads"], assumptions=["ABT_barrier_reinit is called only while nobody waits (API precondition)"]),
+    "C09": P(160000, 3000000, expect_reach=["c09.future_reset_rounds", "c09.future_resets_of_partly_filled", "c09.waits_blocked_before_set", "c09.tests_ready", "c09.tasklet_waits_refused", "c09.rearm_sets", "c09.rearm_waits_released_by_a_later_set"], assumptions=["scenario eventual: ABT_eventual_reset is called only at quiescent points (no waiter, no setter in flight); scenario eventual-rearm: the single setter resets right after its own set, while released waiters may still be on their way out"]),
+    "C10": P(160000, 3000000, expect_reach=["c10.reads_sharing_the_lock", "c10.tasklet_calls_refused"], assumptions=["lockers unlock what they locked; finite programs (no reader stream that starves a writer for ever)"]),
     "C11": P(160000, 3000000, expect_reach=["c11.resumes", "c11.yield_to", "c11.suspend_to", "c11.resume_yield_to", "c11.resume_suspend_to", "c11.exit_to", "c11.resume_exit_to", "c11.create_to", "c11.revive_to", "c11.thread_yield_to", "c11.thread_yield_to_race_refused"],
              assumptions=["directed-switch targets satisfy the documented preconditions (popped from their pool / observed BLOCKED / TERMINATED); in the chain scenario ABT_thread_yield_to only with a pool served by the calling stream", "scenario yield_to-race goes beyond the documented precondition of ABT_thread_yield_to (target in its pool): other streams may pop the target meanwhile; it relies on the implementation's re-check under the pool lock, which refuses with an error"]),
     "C02": P(160000, 3000000, expect_reach=["c02.resumes", "c02.yield_to", "c02.suspend_to", "c02.resume_yield_to", "c02.exit_to", "c02.create_to", "c02.revive_to"],
@@ -29,7 +29,7 @@ PROPS = {
     "C15": P(160000, 3000000, expect_reach=["mempool.new_page", "mempool.bucket_from_global_lifo", "c15.mempool_allocs", "c15.mempool_cross_thread_frees", "c15.ext_frees_of_user_stack_ults", "c15.churn_units", "c15.churn_rounds_finished_on_another_stream", "c15.cancel_requests_to_queued_unnamed_units"],
              assumptions=["the white-box driver uses ABTI_mem_pool_* exactly as abti_mem.h does (one local pool per simulated thread, blocks may be freed to any local pool of the same global pool)",
                           "stack sizes 16 KiB..2 MiB (+50%) in the quick tier, up to 16 MiB in the thorough tier; with stack guards enabled the two lowest pages are not written"]),
-    "C16": P(160000, 3000000, expect_reach=["key.chain_append", "key.table_creation_race_lost", "c16.remote_sets_while_owner_runs", "c16.destructor_calls", "c16.revives"],
+    "C16": P(160000, 3000000, expect_reach=["key.chain_append", "key.table_creation_race_lost", "c16.remote_sets_while_owner_runs", "c16.destructor_calls", "c16.revives", "c16.keys_replaced_while_values_live"],
              assumptions=["every (unit,key) pair has a single writer (the owner or one remote setter), so the expected value is unique; ABT_KEY_TABLE_SIZE is randomised in {1,...,64}", "a revived unit is the same work unit: its values survive ABT_thread_revive / ABT_task_revive and are destroyed at the free"]),
     "C17": P(160000, 3000000, expect_reach=["c17.lin_decided"],
              assumptions=["each stream is freed / re-ranked only by the actor that created it; ABT_xstream_set_main_sched is applied to a joined stream or to the caller's own stream",
